@@ -1,6 +1,8 @@
 package main
 
 import (
+	"strings"
+	"go/constant"
 	"go/types"
 	"sort"
 
@@ -276,6 +278,56 @@ func (c *Ctx) keyMaterialType() *types.Named {
 // globalByType returns the package-level variable of module package rel with
 // today's name, or else the unique one whose type prints as typ.
 func (ir *initReader) globalByType(rel, fallback, typ string) (*GVal, *ssa.Global) {
+	v, g := ir.globalByType0(rel, fallback, typ)
+	if g == nil && strings.HasPrefix(typ, "map[") {
+		// the same table written as an array or slice indexed by the key
+		if i := strings.Index(typ, "]"); i > 0 {
+			valT := typ[i+1:]
+			if p := ir.c.Pkg(rel); p != nil {
+				var found *ssa.Global
+				n := 0
+				for _, m := range p.Members {
+					gg, ok := m.(*ssa.Global)
+					if !ok {
+						continue
+					}
+					pt, ok := gg.Type().(*types.Pointer)
+					if !ok {
+						continue
+					}
+					var elem types.Type
+					switch t := pt.Elem().Underlying().(type) {
+					case *types.Array:
+						elem = t.Elem()
+					case *types.Slice:
+						elem = t.Elem()
+					}
+					if elem != nil && types.TypeString(elem, nil) == valT {
+						found = gg
+						n++
+					}
+				}
+				if n == 1 {
+					v, g = ir.global(found), found
+				}
+			}
+		}
+	}
+	// present an indexed table as the map it stands for: index → element
+	if g != nil && v != nil && v.Kind == "slice" && strings.HasPrefix(typ, "map[") {
+		out := &GVal{Kind: "map", Type: v.Type, Pos: v.Pos}
+		for i, el := range v.Elems {
+			if el == nil || el.Kind == "zero" || (el.Kind == "const" && el.Const == nil) {
+				continue // a hole: no entry for this key
+			}
+			out.Entries = append(out.Entries, GEntry{K: &GVal{Kind: "const", Const: constant.MakeInt64(int64(i))}, V: el})
+		}
+		return out, g
+	}
+	return v, g
+}
+
+func (ir *initReader) globalByType0(rel, fallback, typ string) (*GVal, *ssa.Global) {
 	if v, g := ir.GlobalInit(rel, fallback); g != nil {
 		return v, g
 	}
